@@ -36,12 +36,9 @@ def _pack_unsigned(inst):
         wf = [z3.And(b >= 0, b <= 255) for b in items]
         return z3.And(symx.term(d) == v, z3.BoolVal(eof), *wf)
 
-    def twin(val):  # wrong oracle: the signed reader on unsigned output -- must be refutable
+    def twin(val):  # wrong oracle (the decoded value is one more than what was written): must be refutable whatever correct encoding is used
         d, eof, items = val
-        n = len(items)
-        lastlow = items[-1] % 128
-        signed = sum((items[i] % 128) * (128 ** i) for i in range(n)) - z3.If(lastlow >= 64, 128 ** n, 0)
-        return signed == v
+        return symx.term(d) == v + 1
 
     return _explore(fn, pre, inst, good, twin if inst.get("twin") else None)
 
